@@ -21,7 +21,7 @@ import (
 )
 
 type Op struct {
-	K string `json:"k"` // A arrange, F free, B block, W fill a block, P write one byte, R reopen, V available, C count, S segments
+	K string `json:"k"` // A arrange, F free, B block, W fill a block, P write one byte, R reopen, V available, C count, S segments, G grow the storage under the live allocator to I bytes
 	I int64  `json:"i,omitempty"`
 	V int    `json:"v,omitempty"`
 	P int64  `json:"p,omitempty"` // P: position inside the block
@@ -125,6 +125,8 @@ func coqOp(o Op) string {
 		return "OCount"
 	case "S":
 		return "OSegments"
+	case "G":
+		return "OGrow " + z(o.I)
 	}
 	panic("bad op " + o.K)
 }
@@ -165,6 +167,12 @@ func (st *store) open(first bool) error {
 		}
 		st.buf = cbytes.NewInMemBytes(int(st.c.Size))
 	}
+	return st.refetch()
+}
+
+// refetch takes the window over the whole storage again: after Grow the storage has new backing memory
+// (inmem: a new array; MMFile: a new mapping)
+func (st *store) refetch() error {
 	st.whole = nil
 	if st.buf.Size() > 0 {
 		w, err := st.buf.Buffer(0, int(st.buf.Size()))
@@ -206,6 +214,9 @@ const copyLimit = 8 << 20
 
 // runSeq executes a sequential case and returns its Coq term
 func runSeq(c Case, s *hx.Sink, outDir string) string {
+	// a store through a stale slice into memory that was unmapped (MMFile.Grow maps the file again) is a
+	// recoverable panic, seen as OutPanic, instead of the end of the harness
+	defer debug.SetPanicOnFault(debug.SetPanicOnFault(true))
 	st := &store{c: c, dir: outDir}
 	if c.Backend == "mmf" {
 		st.path = filepath.Join(outDir, fmt.Sprintf("c17_%d_%d.mm", os.Getpid(), c.ID))
@@ -356,6 +367,31 @@ func runSeq(c Case, s *hx.Sink, outDir string) string {
 					b = nb
 					out = "OutOk"
 				}
+			case "G":
+				// bts.Grow under the live allocator; b keeps being used
+				before := st.buf.Size()
+				err := st.buf.Grow(o.I)
+				if rerr := st.refetch(); rerr != nil {
+					s.DirectViolation(c.ID, "the storage gives no window after Grow", rerr.Error())
+				}
+				if err != nil {
+					out = "OutErr " + errName(err)
+				} else {
+					out = "OutOk"
+				}
+				ss := segSize(c.Bs)
+				switch d := o.I - before; {
+				case d < 0:
+					s.Count("grow:smaller(err)")
+				case d == 0:
+					s.Count("grow:same-size")
+				case o.I/ss == before/ss:
+					s.Count("grow:no-new-segment")
+				case o.I/ss == before/ss+1:
+					s.Count("grow:+1-segment")
+				default:
+					s.Count("grow:+n-segments")
+				}
 			case "V":
 				out = "OutN " + z(int64(b.Available()))
 			case "C":
@@ -388,24 +424,32 @@ func runSeq(c Case, s *hx.Sink, outDir string) string {
 			}
 			var set []int64
 			sane := true
-			if c.Size <= copyLimit {
-				cp := cbytes.NewInMemBytes(int(c.Size))
-				w, _ := cp.Buffer(0, int(c.Size))
+			cur := st.buf.Size() // the storage may have been grown
+			if cur <= copyLimit {
+				cp := cbytes.NewInMemBytes(int(cur))
+				w, _ := cp.Buffer(0, int(cur))
 				copy(w, st.whole)
 				if b3, err := cbytes.NewBlocks(int(c.Bs), cp, c.Fit); err == nil {
 					set, sane = recoverSet(b3)
+					s.Count("rset:copy")
+					if b3.Count() != b.Count() {
+						s.Count("rset:copy-with-more-segments")
+					}
 				} else {
-					set, sane = []int64{-1}, false
+					// fit and a grown size that is no whole number of segments; the comparison of
+					// ravail (-1 here) with the model's NewBlocks covers an unexpected failure
+					want = false
+					s.Count("rset:reopen-failed")
 				}
-				s.Count("rset:copy")
 			} else if last {
 				// too large to copy: the case is over, recover on the bytes themselves
 				if b3, err := cbytes.NewBlocks(int(c.Bs), st.buf, c.Fit); err == nil {
 					set, sane = recoverSet(b3)
+					s.Count("rset:in-place")
 				} else {
-					set, sane = []int64{-1}, false
+					want = false
+					s.Count("rset:reopen-failed")
 				}
-				s.Count("rset:in-place")
 			} else {
 				want = false
 			}
@@ -457,7 +501,7 @@ func nontrivial(c Case) bool {
 		if o.K == "A" {
 			a = true
 		}
-		if o.K == "F" || o.K == "R" {
+		if o.K == "F" || o.K == "R" || o.K == "G" {
 			f = true
 		}
 	}
@@ -513,6 +557,7 @@ func main() {
 	s.Close("constructor stream: every block size of {1,2,4,...,4096,8192,12288} and {0,-1,3,6,12,4097,5000,...} x storage sizes around 0..3 segments x fit; "+
 		"exhaustive: bs in {1,2}, 1..2 segments, every fill level prefix x all call sequences of depth d over the step alphabet (allocated set recovered from a copy of the bytes after every call); "+
 		"random: seeded long call sequences over all geometries, zero / nearly full / garbage initial bytes, reopen inside the sequence, blocks filled and read back; "+
+		"grow: bts.Grow on the storage under the live allocator (by less than a segment, exactly one, several, smaller = error, same size), the same allocator used afterwards, state recovered from a copy, reopen later, calls over the enlarged index range; directed: full segment / partial / garbage tail / fit; "+
 		"mmf: the same through a memory mapped file that is closed and mapped again; conc: 8 goroutines on one allocator. "+
 		"distinct = by content hash; non-trivial = at least 3 calls with an ArrangeBlock and a FreeBlock or reopen (every concurrent run)", false)
 }
